@@ -1,14 +1,17 @@
 (* C15 — simplification keeps regular systems square and self-contained.  Same model as C14.
 
-   NOT proved: the square statement for the eliminable pass (needs: no equation is a bare
-   eliminable symbol repeated — the code then drops an equation without removing a variable) and
-   for detect_aliases (needs: every detected alias joins two distinct classes); the composition
-   over whole option sets.  The closedness statement is false for cyclic eliminable assignments
-   (C15_closed_cyclic_refuted, known finding) and is proved under the hypothesis that carves
-   exactly that out: the resolved values do not mention an eliminated variable. *)
+   NOT proved: the square statement for detect_aliases.  Exact missing lemmas: (i) members_ok —
+   every member of an alias entry created by _make_alias is an algebraic variable and occurs in
+   one entry only (this is what the two seeded C15 changes broke: the do-not-eliminate test and
+   the swap); (ii) arel_add with two different canonical variables adds exactly one member, so
+   #dropped equations = #new members = #removed algebraic variables when no alias equation is
+   redundant.  Hence no composed C15_square / C15_closed for whole option sets; the per-pass
+   statements below compose for option sets without detect_aliases only informally.  The
+   closedness statement is false for cyclic eliminable assignments (C15_closed_cyclic_refuted,
+   known finding) and is proved under the hypothesis that carves exactly that out. *)
 From Coq Require Import ZArith QArith Qcanon List Bool PArith.
 Import ListNotations.
-From PV Require Import Model.C14_simplify Proofs.C14_simplify.
+From PV Require Import Model.C14_simplify Proofs.C14_simplify Proofs.C14_compose.
 
 (* eliminate_constant_assignments: every dropped equation is paired with exactly one removed
    algebraic variable (which becomes a constant); states and derivatives are untouched *)
@@ -19,6 +22,18 @@ Theorem C15_square_constant_assignments (m : model) :
   /\ ders m' = ders m /\ states m' = states m.
 Proof. exact (square_elim_const_assignments m). Qed.
 Print Assumptions C15_square_constant_assignments.
+
+(* eliminable_variable_expression: every dropped equation is paired with exactly one removed
+   algebraic variable; states, derivatives, inputs, parameters and constants are untouched.
+   (`failed = false` excludes the double extraction of one variable, which raises in pymoca.) *)
+Theorem C15_square_eliminable (mt : list name) (m : model) :
+  NoDup (algs m) -> failed m = false -> failed (eliminate_vars mt m) = false ->
+  let m' := eliminate_vars mt m in
+  (length (algs m') + length (eqs m) = length (algs m) + length (eqs m'))%nat
+  /\ ders m' = ders m /\ states m' = states m /\ inputs m' = inputs m
+  /\ params m' = params m /\ consts m' = consts m.
+Proof. exact (square_eliminate_vars mt m). Qed.
+Print Assumptions C15_square_eliminable.
 
 (* any substituting pass: if every symbol outside dom s was declared (D) and the substituted
    values only use declared symbols, the substituted equations only use declared symbols —
